@@ -5,7 +5,7 @@
    where the Rust operation panics (slice indexing, expect, debug-build overflow).  Third-party
    decoders are universally quantified function arguments (total oracles). *)
 From Coq Require Import List NArith String Ascii Bool.
-From V Require Import lib.Strs lib.Dec gen.Consts model.Amount model.Parsers proofs.Parsers
+From V Require Import lib.Strs lib.Dec gen.Consts model.Amount proofs.Amount model.Parsers proofs.Parsers
      model.BootCache proofs.BootCache.
 Import ListNotations.
 Open Scope N_scope.
@@ -99,6 +99,10 @@ Proof. exact no_panic_increment_port_lemma. Qed.
 (* ---- amounts (model/Amount.v, C16), multiaddresses, files, record bytes *)
 Theorem no_panic_amount_from_str : forall s, amount_from_str s <> Panic.
 Proof. exact no_panic_amount_lemma. Qed.
+
+(* formatter -> parser for token amounts over the whole domain (C16's lemma, model/Amount.v read-only) *)
+Theorem amount_format_parse_roundtrip : forall a, a < U256 -> amount_from_str (display a) = Ok a.
+Proof. intros a H. unfold amount_from_str. rewrite (roundtrip_lemma a H). reflexivity. Qed.
 
 Theorem no_panic_craft_from_str : forall parse s ignore_peer_id,
   craft_from_str parse s ignore_peer_id <> Panic.
